@@ -125,6 +125,21 @@ def sched_stop_model(chk):
             raise vlib.Broken("the variant of SchedStop (%s) is not rejected: the invariants are vacuous" % what)
 
 
+def blocked_count_model(chk):
+    """Level B: the blocked counter across yield_to / suspend / resume with migration and cancellation requests (C06)"""
+    d = os.path.join(VERIF, "spec", "core")
+    vlib.tlc_check(chk, "BlockedCount: counter updates of the yield_to / suspend callbacks and of resume as coded, with concurrent "
+                   "migration and cancellation requests, exhaustive", os.path.join(d, "BlockedCount.tla"),
+                   os.path.join(d, "BlockedCountMC.cfg"), timeout=300)
+    for cfg, what in (("BlockedCountSkipDec.cfg", "no decrement when the directed yield ends in a cancellation"),
+                      ("BlockedCountLoadLate.cfg", "pool read after the migration was performed"),
+                      ("BlockedCountIncFirst.cfg", "suspend counting before it honours the migration request")):
+        r = vlib.tlc_check(chk, "BlockedCount with %s (must be violated)" % what, os.path.join(d, "BlockedCount.tla"),
+                           os.path.join(d, cfg), timeout=300, expect="violation")
+        if not r["violated"]:
+            raise vlib.Broken("the variant of BlockedCount (%s) is not rejected: the invariants are vacuous" % what)
+
+
 def mig_proto_model(chk):
     """Level B: the migration request protocol as coded (C13); the order before fix dbdaa3d is the witness"""
     d = os.path.join(VERIF, "spec", "core")
